@@ -7,8 +7,9 @@
     the theorems hold for every hash function and every recovery function, "sealed by X" MEANS [ER chain h]
     returns X.  Premises [wf_hdr h] (number and extra-data length are below 2^64, as for every Go value) and
     [0 < h_num h] (the block number does not wrap around 2^64) are range facts, not behavioural assumptions. *)
-From Teleport Require Import Base.Bytes Base.Outcome Model.Bsc Model.BscCheck Model.BscToy
-  Proofs.BscBase Proofs.Bsc Proofs.BscInv Proofs.BscThm Proofs.BscMon.
+From Teleport Require Import Base.Bytes Base.Outcome Model.Bsc Model.BscCheck Model.BscToy Model.BscRlp
+  Proofs.BscBase Proofs.Bsc Proofs.BscInv Proofs.BscThm Proofs.BscMon Proofs.BscRlp Proofs.BscChain Proofs.BscGenTie Proofs.BscComplete.
+From Teleport Require Gen.BscConstsGen Gen.KeysGen Base.Fmt.
 Local Open Scope N_scope.
 
 (** A header accepted by CheckHeaderAndUpdateState (in ANY client state and store) is the direct child of the
@@ -40,6 +41,35 @@ Proof.
   destruct A. repeat (split; [assumption|]). exact D.
 Qed.
 Print Assumptions C09_accept_sound.
+
+(** Conversely (the listed conditions are SUFFICIENT, the model rejects nothing for another reason): a header that
+    meets every conjunct of [C09_accept_sound] is accepted, provided the consensus state of the head is in the store
+    (always so in a reachable state: [C09_consensus_states_history]) and the head can be hashed (bloom <= 256 and
+    nonce <= 8 bytes: so for every head that was itself accepted). *)
+Theorem C09_accept_complete : forall HH ER bt cs st h signer,
+  get_cons st (hheight (c_header cs)) <> None ->
+  len (h_bloom (c_header cs)) <= 256 -> len (h_nonce (c_header cs)) <= 8 ->
+  h_num (c_header cs) = sub64 (h_num h) 1 -> HH (c_header cs) = to_hash (h_parent h) ->
+  97 <= len (h_extra h) -> c_epoch cs <> 0 ->
+  (if h_num h mod c_epoch cs =? 0 then (len (h_extra h) - 97) mod 20 = 0 else len (h_extra h) = 97) ->
+  to_hash (h_mix h) = zeros 32 -> to_hash (h_uncle h) = uncleHash ->
+  len (h_bloom h) <= 256 -> len (h_nonce h) <= 8 ->
+  (0 < h_num h -> N_of_bytes (h_diff h) mod two64 <> 0) ->
+  h_gaslimit h <= 9223372036854775807 -> h_gasused h <= h_gaslimit h ->
+  gas_bound_bad (h_gaslimit (c_header cs)) (h_gaslimit h) = false ->
+  sealer ER (c_chain cs) h = Some signer -> signer = to_addr (h_coinbase h) ->
+  In signer (map to_addr (c_vals cs)) ->
+  recently_signed (recents st) signer (h_num h) (limit_of_vals (c_vals cs)) = false ->
+  N_of_bytes (h_diff h) = (if inturn cs signer then 2 else 1) ->
+  exists st' cs' c', check_header_and_update HH ER bt cs st h = (st', ROk (cs', c')).
+Proof.
+  intros HH ER bt cs st h signer G T1 T2 A9 A10 A3 A7 A8 A4 A5 A1 A2 A6 A11 A12 A13 A14 A15 A16 A17 D.
+  apply (accept_complete HH ER bt cs st h signer G).
+  - unfold tobsc_ok. apply andb_true_iff. split; apply N.leb_le; assumption.
+  - constructor; assumption.
+  - exact D.
+Qed.
+Print Assumptions C09_accept_complete.
 
 (** The gas bound in ordinary arithmetic: |parent - limit| < parent/256 and limit >= 5000, for every parent
     limit (before the repair ff33d14 only for parent limits that fit an int64, Refuted/C09_refuted.v). *)
@@ -169,6 +199,80 @@ Theorem C09_monitor_sound : forall HH ER cs st ch bt h st' cs',
     mon_pending (pending st') epoch_extra = true.
 Proof. exact monitor_sound. Qed.
 Print Assumptions C09_monitor_sound.
+
+(** The accepted headers form ONE chain, over all histories since creation: any two neighbours [b2], [b1] of the
+    ghost chain have consecutive numbers, [b2] names the hash of [b1] as its parent, and both were sealed by the
+    account they name as coinbase (the creation block included). *)
+Theorem C09_chain_linked : forall HH ER k ch pre b2 b1 t,
+  reach HH ER k ch -> ch = pre ++ b2 :: b1 :: t ->
+  gnum b2 = gnum b1 + 1 /\ HH (gb_hdr b1) = to_hash (h_parent (gb_hdr b2)) /\
+  (sealer ER (c_chain (fst k)) (gb_hdr b2) = Some (gb_sealer b2) /\ gb_sealer b2 = to_addr (h_coinbase (gb_hdr b2))) /\
+  (sealer ER (c_chain (fst k)) (gb_hdr b1) = Some (gb_sealer b1) /\ gb_sealer b1 = to_addr (h_coinbase (gb_hdr b1))).
+Proof. intros HH ER k ch pre b2 b1 t HR E. exact (chain_neighbours HH ER k ch pre b2 b1 t HR E). Qed.
+Print Assumptions C09_chain_linked.
+
+(** ** The oracles opened (Model/BscRlp.v): [HH] = keccak256 of the RLP of the normalised header, [ER] = signature
+    recovery on keccak256 of the RLP of (chain id, raw fields, extra data without the seal).  [keccak] and
+    [recover] stay arbitrary functions. *)
+
+(** "Sealed by X" covers the chain id and every field of the header except the revision number and the seal
+    itself: two (chain id, header) pairs have the same signed bytes iff they agree on all of those. *)
+Theorem C09_seal_covers : forall c1 h1 c2 h2,
+  enc_ranges c1 h1 -> enc_ranges c2 h2 ->
+  (seal_rlp c1 h1 = seal_rlp c2 h2 <-> c1 = c2 /\ sealed_part h1 = sealed_part h2).
+Proof. exact seal_rlp_covers. Qed.
+Print Assumptions C09_seal_covers.
+
+(** Equal seal digests: equal signed content, or two different byte strings with the same keccak256. *)
+Theorem C09_seal_hash_binds : forall keccak c1 h1 c2 h2,
+  enc_ranges c1 h1 -> enc_ranges c2 h2 ->
+  seal_hash keccak c1 h1 = seal_hash keccak c2 h2 ->
+  (c1 = c2 /\ sealed_part h1 = sealed_part h2) \/ (exists a b, a <> b /\ keccak a = keccak b).
+Proof. exact seal_hash_binds. Qed.
+Print Assumptions C09_seal_hash_binds.
+
+(** The parent hash binds the whole normalised parent header (numbers below 2^63; from 2^63 on the hash is
+    keccak256("") for every header: Refuted/C09_refuted.v, [C09_block_hash_above_2p63_refuted]). *)
+Theorem C09_block_hash_binds : forall keccak c1 h1 c2 h2,
+  enc_ranges c1 h1 -> enc_ranges c2 h2 -> h_num h1 < two63 -> h_num h2 < two63 ->
+  block_hash keccak h1 = block_hash keccak h2 ->
+  hashed_part h1 = hashed_part h2 \/ (exists a b, a <> b /\ keccak a = keccak b).
+Proof. exact block_hash_binds. Qed.
+Print Assumptions C09_block_hash_binds.
+
+(** Acceptance in terms of keccak256 and signature recovery: the account recovered from the last 65 bytes of the
+    extra data over keccak256(seal_rlp chain h) is the coinbase and a member of the validator list, and the parent
+    field is keccak256(block_rlp head). *)
+Theorem C09_accept_sound_opened : forall keccak recover bt cs st h st' cs' c',
+  check_header_and_update (block_hash keccak) (seal_recover keccak recover) bt cs st h = (st', ROk (cs', c')) ->
+  exists account,
+    65 <= len (h_extra h) /\
+    recover (keccak (seal_rlp (c_chain cs) h)) (extra_seal (h_extra h)) = Some account /\
+    to_addr account = to_addr (h_coinbase h) /\ In (to_addr account) (map to_addr (c_vals cs)) /\
+    keccak (block_rlp (c_header cs)) = to_hash (h_parent h).
+Proof. exact accept_sound_opened. Qed.
+Print Assumptions C09_accept_sound_opened.
+
+(** The mechanical parts of the model are the ones REGENERATED from the Go source on this run
+    (tools/gotocoq/bscconsts -> Gen/BscConstsGen.v): the list the sealer signs (elements, order, encoding of each),
+    the list hashed for the block hash (fields of BscHeader in order, their types, what ToBscHeader fills them with;
+    the encoding of each agrees with its Go type), the constants of bsc.go and the registered error codes. *)
+Theorem C09_source_tie :
+  seal_schema_view = BscConstsGen.bsc_seal_items /\
+  block_schema_view = BscConstsGen.bsc_block_items /\ block_kinds_ok = true /\
+  (forall k v, In (k, v) model_consts -> lookup k BscConstsGen.bsc_consts = Some v) /\
+  (forall k v, In (k, v) model_codes -> lookup k BscConstsGen.bsc_error_codes = Some v).
+Proof. exact gen_tie. Qed.
+Print Assumptions C09_source_tie.
+
+(** The store keys of the model are the key builders regenerated from store.go / host/keys.go (tools/gotocoq/keys):
+    recentSingers/<rev>-<height> in decimal, consensusStates/<BE64 rev><BE64 height>, pendingValidators. *)
+Theorem C09_store_keys_tie : forall rev num v, rev < two64 -> num < two64 ->
+  recent_key (rev, num) = Fmt.render KeysGen.bsc_keyRecentSinger [Fmt.VN rev; Fmt.VN num; Fmt.VS v] /\
+  cons_key (rev, num) = Fmt.render KeysGen.host_ConsensusStateKey [Fmt.VN rev; Fmt.VN num] /\
+  pending_key = KeysGen.bsc_PrefixPendingValidators.
+Proof. exact keys_tie. Qed.
+Print Assumptions C09_store_keys_tie.
 
 (** Non-vacuity (toy oracles of Model/BscToy.v, five validators, limit 3, created at height 0): blocks 1, 2, 3
     and 4 are accepted; B, the sealer of block 1, is rejected for block 2 and for block 3 (error 12 = recently
